@@ -4,6 +4,7 @@
 import Nuts.Model.Tx
 import NutsProofs.Lemmas.Assoc
 import NutsProofs.Props.C04
+import NutsProofs.Lemmas.BPTreeRefine
 namespace NutsProofs.C01
 open Nuts Nuts.Model Nuts.Model.DB NutsProofs
 
@@ -151,5 +152,44 @@ theorem put_then_lookup (s : State) (r : Rec) (hfit : ¬ r.size > s.opt.seg) (hk
 
 example : KVSorted (commit {} [mkRec [97] [98] [1] flagSet dsKV, mkRec [97] [97] [2] flagSet dsKV]).1 :=
   commit_sorted _ _ kvSorted_init
+
+/-! ### the index really is a B+ tree
+
+The DB model keeps each bucket's index as a sorted association list (`upsert`, `aget?`). The code keeps it
+as a B+ tree of order 8 (bptree.go); `Nuts.Model.BPTree` is that tree, insertion with the Go split rules
+included, and the `bpt-ds` suite compares it with `BPTree.Insert/Find/…` node for node. The theorems below
+discharge the abstraction: for every sequence of insertions the tree is well formed, its leaf chain is the
+sorted list, and `Find` is the list lookup. -/
+
+open Nuts.Model.BPTree NutsProofs.BPT in
+/-- **C01 (index refinement).** After any sequence of `Insert`s into an empty B+ tree — every leaf split,
+inner split and root split included — the leaf chain is exactly the `upsert` fold the DB model uses, it is
+strictly ascending, and `Find` returns what `aget?` returns on it. -/
+theorem C01_tree_index_refines_sorted_list (ops : List (Bytes × Idx)) (k : Bytes) :
+    let t := ops.foldl (fun t p => Tree.insert t p.1 p.2) (none : Tree Idx)
+    let m := ops.foldl (fun m p => upsert m p.1 p.2) ([] : Assoc Idx)
+    t.toList = m ∧ Sorted m ∧ t.find k = aget? m k := by
+  obtain ⟨hwf, htl⟩ := Tree.inserts_refine ops
+  refine ⟨htl, ?_, ?_⟩
+  · rw [← htl]; exact Tree.sorted _ hwf
+  · rw [← htl]; exact Tree.find_eq_aget _ hwf k
+
+open Nuts.Model.BPTree NutsProofs.BPT in
+/-- one more `Insert` into a well-formed tree is one more `upsert` — the step form, for trees that were
+not built from empty in one go (reopen rebuilds the tree in replay order) -/
+theorem C01_tree_insert_step (t : Tree Idx) (h : Tree.WF t) (k : Bytes) (v : Idx) :
+    (Tree.insert t k v).toList = upsert t.toList k v ∧ Tree.WF (Tree.insert t k v) :=
+  Tree.insert_refines t h k v
+
+/-- depth of a tree (1 = a single leaf) -/
+def treeDepth {α} : Nuts.Model.BPTree.Node α → Nat
+  | .leaf _ => 1
+  | .inner c0 _ => treeDepth c0 + 1
+
+/-- the theorems are about trees that do split: 40 ascending insertions make a tree of depth 3 -/
+theorem C01_witness_tree_splits :
+    ((((List.range 40).map fun i => ([i.toUInt8], i)).foldl
+        (fun t p => Nuts.Model.BPTree.Tree.insert t p.1 p.2) (none : Nuts.Model.BPTree.Tree Nat)).map treeDepth) = some 3 := by
+  decide +kernel
 
 end NutsProofs.C01
